@@ -176,10 +176,12 @@ def has_magic(c):
     return any(ch in c for ch in "*?[")
 
 
-def glob_walk(full):
-    """Paths an absolute pattern names, in the order a depth-first walk over sorted names visits them."""
-    paths = ["/"]
-    for c in [x for x in full.split("/") if x != ""]:
+def glob_walk(pattern, start="/"):
+    """Paths a pattern names below the directory `start`, in the order a depth-first walk over sorted
+    names visits them.  `start` is a directory NAME, never a pattern: an include is "relative to the
+    including file", whatever characters that file's directory has in its name."""
+    paths = [start]
+    for c in [x for x in pattern.split("/") if x != ""]:
         new = []
         for p in paths:
             if not has_magic(c):
@@ -230,8 +232,8 @@ def realise(spec, root):
         incs = []
         for pat in cfg.get("include", []):
             pat = pat.replace(ROOT, root)
-            full = pat if pat.startswith("/") else base + "/" + pat
-            incs.append([ident(p) for p in glob_walk(full)])
+            walked = glob_walk(pat) if pat.startswith("/") else glob_walk(pat, base)
+            incs.append([ident(p) for p in walked])
         files.append(model_file(ids[canon], cfg, incs))
     main_path = os.path.join(root, spec.get("main", "main.toml"))
     tree = {"main": ident(main_path), "files": files}
@@ -686,6 +688,46 @@ def hazard_specs():
     add("include-empty-globs-only-warn", "started", empty_glob, split=False)
     out.append({"label": "hazard:main-file-missing", "kind": "hazard", "files": {"other.toml": base_cfg()},
                 "main": "main.toml", "expect": "rejected"})
+    out += metadir_specs(out)
+    return out
+
+
+# directory names that are also glob patterns, with a sibling directory each pattern would match
+META_DIRS = [("conf[1]", "conf1"), ("a*b", "aXYb"), ("q?", "qZ"), ("m[!x]n", "myn"), ("plain", None)]
+
+
+def metadir_specs(specs):
+    """The whole tree moved into a directory whose NAME contains glob metacharacters: includes are
+    relative to the including file, so nothing else may change.  A sibling directory which the name,
+    read as a pattern, would match holds the same relative include names with a certificate whose id
+    is already taken (reading it turns `started` into `rejected`) — and, for the `rejected` trees that
+    miss a section, the missing section (reading it turns `rejected` into `started`)."""
+    out = []
+    wanted = ("hazard:none", "hazard:none:split", "hazard:endpoint-behind-empty-glob-and-missing-literal",
+              "hazard:endpoint-behind-empty-glob-and-missing-literal:split",
+              "hazard:include-empty-globs-only-warn", "hazard:account-in-file-not-included:split")
+    for sp in specs:
+        if sp["label"] not in wanted:
+            continue
+        for d, sibling in META_DIRS:
+            files = {d + "/" + rel: copy.deepcopy(cfg) for rel, cfg in sp["files"].items()}
+            if sibling is not None:
+                for rel, cfg in sp["files"].items():
+                    if rel == "main.toml":
+                        continue
+                    decoy = copy.deepcopy(cfg)
+                    decoy.pop("include", None)
+                    decoy.pop("global", None)
+                    if sp["expect"] == "started":
+                        decoy = {"certificate": [mk_cert("c1")]}
+                    files[sibling + "/" + rel] = decoy
+                if sp["expect"] == "started":
+                    for rel in ("inc/zz_decoy.toml", "conf.d/99_decoy.toml", "more/zz_decoy.toml"):
+                        files[sibling + "/" + rel] = {"certificate": [mk_cert("c1")]}
+            ns = dict(sp, label=sp["label"] + ":in-dir:" + d, files=files, main=d + "/main.toml")
+            for k in ("raw", "symlinks", "dirs"):
+                ns.pop(k, None)
+            out.append(ns)
     return out
 
 
